@@ -20,7 +20,7 @@ SHARDS = {"quick": 1, "thorough": 16}
 
 NAMES = ["user_id", "uid", "Zeta", "alpha", "Beta", "_id", "a", "B", "b", "a_b", "aB", "A1", "country", "device", "z9", "Z",
          # names of Python builtins (legal field names) next to siblings that extend them: id / id2 / id_ / idx
-         "id", "id2", "id_", "idx", "type", "typeB", "hash", "hashV2", "input", "max", "max_", "format", "len", "list", "dict", "object"]
+         "seg_9", "seg_10", "f2", "f10", "x1", "x02", "x3", "v1_2", "v1_10", "id", "id2", "id_", "idx", "type", "typeB", "hash", "hashV2", "input", "max", "max_", "format", "len", "list", "dict", "object"]
 SALTS_ASCII = ["x" * 70 + "_v1", "campaign-2024-q3-checkout-button-colour-test-for-returning-customers-v12", "007", "00", "0042", "1.50", "1e3",
                "1_000", "12", "-3", " 7", "inf", "nan", "0x10", "True", "None", "3", "0.0", " lead", "trail ", "\ttab", " ", "  ", "a  b", "x\t", "", "s", "exp-2024", "A B", "csdvs887", "it's", 'say "hi"', "C:\\temp\\new", "a\\", "%s{0}", "#x//y", "/* c */"]
 SALTS_UNI = ["é", "jose\u0301", "日本語", "salt-\U0001f600", "ß", "İ", "\u00a0x", "x\u3000", "\u2126", "\ufb01", "\uff21",
@@ -254,7 +254,7 @@ def fixed_cases():
             inputs += [M.enc_inputs({n: "" for n in names})] * 4  # the same empty key again and again
             yield {"prog": prog, "inputs": inputs}
     # field names that are Python builtins, with siblings that extend them (alphabetical order of the DECLARED names rules)
-    for names in (["id", "id2"], ["id2", "id"], ["type", "typeB", "type_"], ["hash", "hashV2", "hash_"], ["id_", "id", "idx", "id2"], ["max", "max_", "min"],
+    for names in (["seg_9", "seg_10"], ["seg_10", "seg_9", "seg_100"], ["f2", "f10", "f1"], ["x1", "x02", "x3", "x10"], ["v1_2", "v1_10"], ["id", "id2"], ["id2", "id"], ["type", "typeB", "type_"], ["hash", "hashV2", "hash_"], ["id_", "id", "idx", "id2"], ["max", "max_", "min"],
                   ["len", "list", "dict", "object", "input", "format"]):
         body = M.ret([(M.lit_str("g%d" % j), "1") for j in range(32)])
         prog = M.program("exp", body, salt="s", splitters=names)
@@ -271,6 +271,17 @@ def fixed_cases():
                 continue
             body = M.ret([(M.lit_str("g%d" % i), str(w)) for i, w in enumerate(ws)])
             yield {"prog": M.program("exp", body, salt=salt, splitters=["uid"]), "inputs": [M.enc_inputs(env)]}
+    # keys that look like digests / tokens themselves (32 hex digits, UUIDs, base64): they are hashed like any other text
+    import hashlib
+
+    tokens = ["0" * 32, "f" * 32, hashlib.md5(b"user-1").hexdigest(), hashlib.md5(b"user-2").hexdigest(), "00000000000000000000000000000001", "0123456789abcdef0123456789abcdef",
+              "6f1e2a9c-0b7d-11ee-be56-000000000001", "6F1E2A9C0B7D11EEBE56000000000001", hashlib.sha1(b"x").hexdigest(), hashlib.sha256(b"x").hexdigest(), "ZGVhZGJlZWY=", "0x1f", "deadbeef"]
+    body = M.ret([(M.lit_str("g%d" % j), "1") for j in range(32)])
+    for salt in (None, "", "s1", "ab12"):
+        prog = M.program("exp", body, salt=salt, splitters=["uid"])
+        yield {"prog": prog, "inputs": [M.enc_inputs({"uid": t}) for t in tokens] + [M.enc_inputs({"uid": t[4:]}) for t in tokens[:6]]}
+    prog = M.program("exp", body, salt=None, splitters=["a", "b"])
+    yield {"prog": prog, "inputs": [M.enc_inputs({"a": t[:16], "b": t[16:]}) for t in tokens[:6]]}
     # every catalogue salt and every hostile-but-legal string, as the salt and as a splitter value
     for i, salt in enumerate(SALTS_ASCII + SALTS_UNI + gen.TRICKY_STRS):
         if any(c in salt for c in M.LINE_BREAKS) or ('"' in salt and "'" in salt):
